@@ -598,6 +598,8 @@ class ConcreteHarness(Harness):
     interpreter.  Every `oblige` condition must evaluate to the same truth value as in the native run
     of the real package under CPython; a difference is a bug of the VC generator (checker error)."""
 
+    concrete = True
+
     def __init__(self, interp, oset_name, inputs):
         super().__init__(interp, oset_name)
         self.inputs_in = inputs
